@@ -729,7 +729,12 @@ tensors it contracts with are modelled and proved) are external/numerical code ‚
 `_result_dict` cache keyed by `describe()` (two components whose parameters agree to 6 significant
 digits share an entry) and its photon-number filter are validated by the correspondence only; and the `1/‚àö(‚àès!‚àèt!)` normalisation is
 irrational, so theorems are about `pamp` and `|pamp|¬≤` (`mps_tm2_normalised`, `evolve_normalised`
-quantify over any square roots instead).
+quantify over any square roots instead).  The session machines (`Model/C02Sess.lean`, `Model/C02SessK.lean`)
+take the enumeration of the native `xq.FSArray(m, n, mask)` / `FSMask.match` as `arrayStates` (deficit within the
+slack, nothing when the mask is instantiated for fewer photons) ‚Äî validated by the correspondence, not proved; of
+SLOS only the python bookkeeping that decides WHICH states an answer lists (`_state_mapping`, `_fsas`, the resets)
+is modelled, not the layers `_fsms` / `_mk_l` nor the coefficient propagation of `_Path`; nothing is claimed about
+an object after it raised an exception; `MPSBackend._compile` and the `Stepper` are not part of the session model.
 -/
 
 end PM.C02
